@@ -134,11 +134,14 @@ def run_c14(tier, seed, replay, keep):
     wd = core.scratch("verif-c14-")
     try:
         env = {"GORACE": "log_path=%s/race halt_on_error=0" % wd}
-        paths = props.run_scenarios_parallel(binary, scenarios, CONC_EVENTS, wd, env=env, par=8, extra=("-verif.hang", "25s"))
+        paths = props.run_scenarios_parallel(binary, scenarios, CONC_EVENTS, wd, env=env, par=16, extra=("-verif.hang", "25s"))
+        t1 = time.time()
+        core.log(f"[C14] {len(scenarios)} scenarios executed on the real code (race detector on) in {t1-t0:.1f}s")
         paths, races = append_races(paths, wd)
         if keep:
             shutil.copytree(wd, "/tmp/keep-C14", dirs_exist_ok=True)
         val = props.validate_parallel("ConcTrace", CONC_CFG % "C14", paths)
+        core.log(f"[C14] {val['lines']} events validated against ConcTrace in {time.time()-t1:.1f}s, violations: {len(val['violations'])}")
         cov = props.scan_traces(paths[:-1], rule_conc)
     finally:
         shutil.rmtree(wd, ignore_errors=True)
